@@ -104,6 +104,28 @@ fn leaf_trees() -> Vec<(String, tir::Tx)> {
             out.push((format!("utxo set: {label}"), tirgen::place(2, tir::Expression::UtxoSet([u].into_iter().collect()))));
         }
     }
+    // operators with an absent operand, on either side (an absent operand is a value of the tree like any other and
+    // the position it sits in is part of the tree)
+    {
+        use tir::{BuiltInOp as B, Expression as E};
+        let five = || E::Number(5);
+        let ops: Vec<(&str, B)> = vec![
+            ("add(none, 5)", B::Add(E::None, five())),
+            ("add(5, none)", B::Add(five(), E::None)),
+            ("add(none, none)", B::Add(E::None, E::None)),
+            ("sub(none, 5)", B::Sub(E::None, five())),
+            ("sub(5, none)", B::Sub(five(), E::None)),
+            ("concat(none, bytes)", B::Concat(E::None, E::Bytes(vec![1, 2]))),
+            ("concat(bytes, none)", B::Concat(E::Bytes(vec![1, 2]), E::None)),
+            ("property(none, 0)", B::Property(E::None, E::Number(0))),
+            ("property(list, none)", B::Property(E::List(vec![five()]), E::None)),
+            ("negate(none)", B::Negate(E::None)),
+            ("noop(none)", B::NoOp(E::None)),
+        ];
+        for (label, op) in ops {
+            out.push((format!("operator {label}"), tirgen::place(5, E::EvalBuiltIn(Box::new(op)))));
+        }
+    }
     let mut empty = tirb::empty_tx();
     empty.validity = None;
     out.push(("empty tx".into(), empty));
